@@ -133,7 +133,8 @@ let parse_prec (s : string) : prec * reference list option =
              (match rest with [o] when o <> "-" && o <> "" -> Some (String.split_on_char ',' o) | _ -> None))
         | _ -> (false, bytes_of_string "  ", None) in
       let syms_b = if syms = "-" then [] else bytes_of_string syms in
-      let fld k v = match opt_str v with Some x -> [IField (k, x)] | None -> [] in
+      let fldp k pad v = match opt_str v with Some x -> [IField (k, pad, x)] | None -> [] in
+      let fld k v = fldp k (bytes_of_string "  ") v in
       let matrix = if syms_b = [] then [] else [IMatrix (po, sep, syms_b, rows)] in
       let rec string_of_n_dec n = string_of_int (int_of_n n) in
       let ref_item (x : reference) =
@@ -148,6 +149,10 @@ let parse_prec (s : string) : prec * reference list option =
         | Some codes ->
             List.concat_map (fun c -> match c with
               | "A" -> fld FAC ac | "I" -> fld FID id | "N" -> fld FNA na | "D" -> fld FDE de
+              | c when String.length c >= 2 && c.[1] = '~' && String.contains "AIND" c.[0] ->
+                  let pad = bytes_of_hex (String.sub c 2 (String.length c - 2)) in
+                  (match c.[0] with 'A' -> fldp FAC pad ac | 'I' -> fldp FID pad id
+                                  | 'N' -> fldp FNA pad na | _ -> fldp FDE pad de)
               | "M" -> matrix | "X" -> [IXX]
               | c when String.length c >= 2 && c.[0] = 'R' ->
                   [ref_item (List.nth refs (int_of_string (String.sub c 1 (String.length c - 1))))]
